@@ -583,6 +583,51 @@ fn parse_literal(ast: &ast::Literal, context: &mut Context) -> TyperResult<Typed
     ))
 }
 
+/// Ensure an expression that is written to names a mutable object
+///
+/// The type of a member or element does not record if the object it belongs to is const or a temporary
+fn check_mutable_place(
+    expr: &ir::Expression,
+    location: SourceLocation,
+    context: &Context,
+) -> TyperResult<()> {
+    let mut current = expr;
+    loop {
+        let ety = match current.get_type(&context.module) {
+            Ok(ety) => ety,
+            Err(_) => return Err(TyperError::InternalError(location)),
+        };
+
+        // Every object on the way to the written part has to be a mutable lvalue
+        if ety.1 != ir::ValueType::Lvalue {
+            return Err(TyperError::LvalueRequired(location));
+        }
+
+        if context.module.type_registry.is_const(ety.0) {
+            return Err(TyperError::MutableRequired(location));
+        }
+
+        current = match current {
+            ir::Expression::StructMember(object, _, _)
+            | ir::Expression::ObjectMember(object, _)
+            | ir::Expression::Swizzle(object, _)
+            | ir::Expression::MatrixSwizzle(object, _) => object,
+            ir::Expression::ArraySubscript(object, _) => {
+                // An element of a resource is not part of the value of the resource variable
+                let object_ty = match object.get_type(&context.module) {
+                    Ok(ety) => context.module.type_registry.remove_modifier(ety.0),
+                    Err(_) => return Err(TyperError::InternalError(location)),
+                };
+                if context.module.type_registry.get_type_layer(object_ty).is_object() {
+                    return Ok(());
+                }
+                object
+            }
+            _ => return Ok(()),
+        };
+    }
+}
+
 fn parse_expr_unaryop(
     op: &ast::UnaryOp,
     expr: &Located<ast::Expression>,
@@ -642,14 +687,17 @@ fn parse_expr_unaryop(
             let (intrinsic, eir, ety) = match *op {
                 ast::UnaryOp::PrefixIncrement => {
                     enforce_increment_type(expr_ty, op, base_location, context)?;
+                    check_mutable_place(&expr_ir, base_location, context)?;
                     (ir::IntrinsicOp::PrefixIncrement, expr_ir, expr_ty)
                 }
                 ast::UnaryOp::PrefixDecrement => {
                     enforce_increment_type(expr_ty, op, base_location, context)?;
+                    check_mutable_place(&expr_ir, base_location, context)?;
                     (ir::IntrinsicOp::PrefixDecrement, expr_ir, expr_ty)
                 }
                 ast::UnaryOp::PostfixIncrement => {
                     enforce_increment_type(expr_ty, op, base_location, context)?;
+                    check_mutable_place(&expr_ir, base_location, context)?;
                     (
                         ir::IntrinsicOp::PostfixIncrement,
                         expr_ir,
@@ -663,6 +711,7 @@ fn parse_expr_unaryop(
                 }
                 ast::UnaryOp::PostfixDecrement => {
                     enforce_increment_type(expr_ty, op, base_location, context)?;
+                    check_mutable_place(&expr_ir, base_location, context)?;
                     (
                         ir::IntrinsicOp::PostfixDecrement,
                         expr_ir,
@@ -1140,6 +1189,7 @@ fn parse_expr_binop(
                 ir::ValueType::Lvalue => ExpressionType(lhs_type.0, ir::ValueType::Rvalue),
                 _ => return Err(TyperError::LvalueRequired(lhs.get_location())),
             };
+            check_mutable_place(&lhs_ir, lhs.get_location(), context)?;
             match ImplicitConversion::find(rhs_type, required_rtype, &mut context.module) {
                 Ok(rhs_cast) => {
                     let rhs_final = rhs_cast.apply(rhs_ir, &mut context.module);
